@@ -50,7 +50,7 @@ class FnSpec:
 
 
 PURE_LOG = {"as_raw", "display", "to_string", "to_str", "unwrap_or_default", "len", "as_str", "Some", "code", "as_secs", "identifier_list", "get_id"}
-def fmt_to_cat(lit):
+def fmt_to_cat(lit, cat="crate::vb64::cat2"):
     """T-FMT (exact form): a format string whose placeholders are all `{ident}` naming String/&str variables is a
     concatenation; returns the nested crate::vb64::cat2 expression, or None when the string has any other shape."""
     body = lit[1:-1]
@@ -83,7 +83,7 @@ def fmt_to_cat(lit):
         return 'String::new()'
     expr = None
     for p in parts:
-        expr = f"crate::vb64::cat2({p}, \"\")" if expr is None and len(parts) == 1 else (p if expr is None else f"crate::vb64::cat2({expr if expr.startswith('&') or expr.startswith(chr(34)) else '&' + expr}, {p})")
+        expr = f"{cat}({p}, \"\")" if expr is None and len(parts) == 1 else (p if expr is None else f"{cat}({expr if expr.startswith('&') or expr.startswith(chr(34)) else '&' + expr}, {p})")
     return expr
 
 
@@ -455,10 +455,13 @@ class Piece:
         lps = loops_in(toks, kb, k1)
         if self.unit.vacuity:
             self._add(toks[kb].end, toks[kb].end, f"\nproof {{ assert(false); }} //@VACUITY.entry.{fn.name}\n", "insert", order=-5)
-            for n, (kw, ko) in enumerate(lps):
-                self._add(toks[ko].end, toks[ko].end, f"\nproof {{ assert(false); }} //@VACUITY.loop{n+1}.{fn.name}\n", "insert", order=-5)
+            isolated = "loop_isolation(false)" not in (fs.attrs or "")
+            if isolated:
+                for n, (kw, ko) in enumerate(lps):
+                    self._add(toks[ko].end, toks[ko].end, f"\nproof {{ assert(false); }} //@VACUITY.loop{n+1}.{fn.name}\n", "insert", order=-5)
             self.unit.vacuity_expected.append(f"VACUITY.entry.{fn.name}")
-            self.unit.vacuity_expected += [f"VACUITY.loop{n+1}.{fn.name}" for n in range(len(lps))]
+            if isolated:
+                self.unit.vacuity_expected += [f"VACUITY.loop{n+1}.{fn.name}" for n in range(len(lps))]
         for ordinal, text in fs.loops.items():
             if ordinal < 1 or ordinal > len(lps):
                 raise Undecided(f"{fn.name}: loop #{ordinal} not found (has {len(lps)})")
